@@ -48,6 +48,7 @@ type Session struct {
 	K1, K2    []byte
 	State     string // "open-req", "rakp1", "active", "closed"
 	RAKP3OK   bool
+	seenSeq map[uint32]bool
 	InSeqs    []uint32 // sequence numbers received, in arrival order
 	OutSeq    uint32
 	Tag       byte
@@ -377,6 +378,16 @@ func (b *BMC) inSession(rx *Rx, s *Session) {
 	}
 	rx.AuthOK = true
 	s.InSeqs = append(s.InSeqs, p.Seq)
+	if s.seenSeq == nil {
+		s.seenSeq = map[uint32]bool{}
+	}
+	if s.seenSeq[p.Seq] {
+		// 6.12.13: a packet whose sequence number was already received is a
+		// duplicate and is silently dropped
+		rx.problem("session sequence number %d was already used on this session; dropped as a replay", p.Seq)
+		return
+	}
+	s.seenSeq[p.Seq] = true
 	payload := p.Payload
 	if s.Suite.Conf == ref.ConfAES {
 		if !p.Encrypted {
